@@ -390,6 +390,7 @@ func (ex *exec) selectOp(cases []selCase, hasDefault bool) (int, value, bool) {
 type mstate struct {
 	locked  bool
 	readers int
+	wwait   int // goroutines waiting in Lock: a pending writer holds back new readers (sync.RWMutex contract)
 	count   int64
 }
 
@@ -408,7 +409,11 @@ func (ex *exec) mstateOf(p *value) *mstate {
 func (ex *exec) mutexLock(p *value) {
 	m := ex.mstateOf(p)
 	ex.preemptPoint()
-	ex.block("mutex lock", func() bool { return !m.locked && m.readers == 0 })
+	if m.locked || m.readers > 0 {
+		m.wwait++
+		ex.block("mutex lock", func() bool { return !m.locked && m.readers == 0 })
+		m.wwait--
+	}
 	m.locked = true
 }
 
@@ -433,7 +438,7 @@ func (ex *exec) mutexUnlock(p *value) {
 func (ex *exec) mutexRLock(p *value) {
 	m := ex.mstateOf(p)
 	ex.preemptPoint()
-	ex.block("mutex rlock", func() bool { return !m.locked })
+	ex.block("mutex rlock", func() bool { return !m.locked && m.wwait == 0 })
 	m.readers++
 }
 
